@@ -284,3 +284,75 @@ func VH_C10_table() {
 	}
 	verifReach("end")
 }
+
+// CREATE INDEX statements and definitions that cannot be interpreted, through
+// newSchema (text level).
+//verif:bounds table t(a TEXT COLLATE nocase, b) with one CREATE INDEX over 1..2 columns, each with optional COLLATE (rtrim) / DESC, or an expression column; plus unparsable / foreign statements as table or index definitions
+func VH_C10_indexes() {
+	colNames := [2]string{"a", "b"}
+	colColl := [2]string{"nocase", ""}
+	n := 1 + verifChoice(2)
+	list := ""
+	var wantCol [2]string
+	var wantColl [2]string
+	var wantDesc [2]bool
+	var isExpr [2]bool
+	for j := 0; j < n; j++ {
+		if j > 0 {
+			list += ", "
+		}
+		ci := verifChoice(2)
+		if verifChoice(4) == 0 {
+			isExpr[j] = true
+			list += colNames[ci] + " + 1"
+		} else {
+			wantCol[j] = colNames[ci]
+			wantColl[j] = colColl[ci]
+			list += colNames[ci]
+		}
+		if verifChoice(2) == 1 {
+			list += " COLLATE rtrim"
+			if !isExpr[j] {
+				wantColl[j] = "rtrim"
+			}
+		}
+		if verifChoice(2) == 1 {
+			list += " DESC"
+			wantDesc[j] = true
+		}
+	}
+	master := []sqliteMaster{
+		{typ: "table", name: "t", tblName: "t", rootPage: 2, sql: "CREATE TABLE t (a TEXT COLLATE nocase, b)"},
+		{typ: "index", name: "i", tblName: "t", rootPage: 3, sql: "CREATE INDEX i ON t (" + list + ")"},
+		{typ: "index", name: "broken", tblName: "t", rootPage: 4, sql: "CREATE INDEX broken ON t (a,"},
+		{typ: "index", name: "other", tblName: "u", rootPage: 5, sql: "CREATE INDEX other ON u (a)"},
+	}
+	s, err := newSchema("t", master)
+	verifNoErr(err, "schema of a valid table")
+	if err != nil {
+		return
+	}
+	verifAssert(len(s.Indexes) == 1, "exactly the table's own interpretable index is reported")
+	ix := s.NamedIndex("I")
+	verifAssert(ix != nil && len(ix.Columns) == n, "index found by name (case-insensitive) with all its columns")
+	if ix != nil && len(ix.Columns) == n {
+		for j := 0; j < n; j++ {
+			c := ix.Columns[j]
+			if isExpr[j] {
+				verifAssert(c.Column == "" && c.Expression != "", "expression column is reported as an expression")
+			} else {
+				verifAssert(c.Column == wantCol[j], "index column name")
+				verifAssert(c.Collate == wantColl[j], "index column collation: explicit, else the table column's")
+			}
+			verifAssert((c.SortOrder == sql.Desc) == wantDesc[j], "index column direction")
+		}
+	}
+	// definitions that cannot be interpreted produce an error, never a schema
+	bad := [...]string{"CREATE TABLE t (a,", "CREATE TABLE t", "CREATE INDEX t ON t (a)", "SELECT a FROM t", "CREATE VIRTUAL TABLE t USING fts5(a)", ""}
+	k := verifChoice(len(bad))
+	_, err = newSchema("t", []sqliteMaster{{typ: "table", name: "t", tblName: "t", rootPage: 2, sql: bad[k]}})
+	verifAssert(err != nil, "a table definition that cannot be interpreted is an error")
+	_, err = newSchema("nosuch", master)
+	verifAssert(err != nil, "unknown table is an error")
+	verifReach("end")
+}
